@@ -51,6 +51,19 @@ def node_or_none(v):
     return z3.Or(v == V.None_, ast_node(v))
 
 
+from specs.outputs import carried_exc, AllCarried, exc_wf, exc_full_wf, carried     # noqa: E402
+
+
+NAMED_PARENT_CLASSES = [c for c in T.subclasses('GraphQLType') if T.resolve_attr(c, 'name') is not None and c not in ('GraphQLList', 'GraphQLNonNull')]
+
+
+def info_wf(i):
+    """ResolveInfo of the field being completed: its parent type is a named composite type (has .name)"""
+    pt = attr0(i, 'parent_type')
+    return z3.And(exact(i, 'ResolveInfo'), V.oref(i) >= 0, V.is_Obj(pt), z3.Or(*[V.ocls(pt) == T.cid[c] for c in NAMED_PARENT_CLASSES]), V.oref(pt) >= 0,
+                  V.is_Str(attr0(i, 'field_name')))
+
+
 def never_raises(out):
     return [('never_raises', z3.BoolVal(False))]
 
@@ -133,11 +146,11 @@ def nodes_list(l):
 PathWf = z3.RecFunction('PathWf', V, BoolS)
 KeysDown = z3.RecFunction('PathKeysDown', V, VL)       # keys from this entry up to the root
 _p = z3.Const('p_', V)
-z3.RecAddDefinition(PathWf, [_p], z3.Or(_p == V.None_, z3.And(exact(_p, 'Path'), V.oref(_p) >= 0, PathWf(attr0(_p, 'prev')))))
+z3.RecAddDefinition(PathWf, [_p], z3.Or(_p == V.None_, z3.And(exact(_p, 'Path'), PathWf(attr0(_p, 'prev')))))
 z3.RecAddDefinition(KeysDown, [_p], z3.If(_p == V.None_, VL.nil, VL.cons(attr0(_p, 'key'), KeysDown(attr0(_p, 'prev')))))
 
 
-UNFOLD['PathWf'] = lambda p: z3.Or(p == V.None_, z3.And(exact(p, 'Path'), V.oref(p) >= 0, PathWf(attr0(p, 'prev'))))
+UNFOLD['PathWf'] = lambda p: z3.Or(p == V.None_, z3.And(exact(p, 'Path'), PathWf(attr0(p, 'prev'))))
 UNFOLD['PathKeysDown'] = lambda p: z3.If(p == V.None_, VL.nil, VL.cons(attr0(p, 'key'), KeysDown(attr0(p, 'prev'))))
 
 
